@@ -9,6 +9,11 @@ def run(tier):
     ntie = asmcheck.codec_tie(chk)
     ctx = asmcheck.Ctx(chk, tier)
     canon = ctx.canonical()
+    # the round trip is a statement about the BYTES: strings whose rendering differs from objdump's text (C01 decides those) are
+    # round-tripped as well — a wrong rendering that no longer assembles back to its bytes is a C03 violation of its own
+    extra = [x for x in ctx.disagree if not asmcheck.has_branch_or_abs(x)]
+    canon = list(canon) + ctx.canonical_of(extra)
+    ctx.base = ctx.base + extra
     res = ctx.asm([('i', x['intel']) for x in ctx.base])
     bad = {}
     def note(key, case, detail): bad.setdefault(key, []).append((case, detail))
